@@ -136,4 +136,23 @@ theorem zip_map_fst_length {α β : Type} (xs : List α) (ys : List β) (h : xs.
     | nil => simp at h
     | cons y ys => simp [ih ys (by simpa using h)]
 
+theorem map_eq_of_zip {α β : Type} (g : α → β) : ∀ (ls : List α) (xs : List β), ls.length = xs.length →
+    (∀ x ∈ ls.zip xs, g x.1 = x.2) → ls.map g = xs := by
+  intro ls
+  induction ls with
+  | nil => intro xs hl _; cases xs with
+    | nil => rfl
+    | cons _ _ => simp at hl
+  | cons l ls ih =>
+    intro xs hl h
+    cases xs with
+    | nil => simp at hl
+    | cons x xs =>
+      have h0 := h (l, x) (by simp)
+      simp only at h0
+      rw [List.map_cons, h0, ih xs (by simpa using hl) (fun y hy => h y (by simp [hy]))]
+
+theorem toList_map {α β : Type} (f : α → β) (o : Option α) : (o.map f).toList = o.toList.map f := by
+  cases o <;> rfl
+
 end ClassWriteFull
